@@ -20,7 +20,7 @@ func filterObs(obs []core.Ob, keep func(o core.Ob) bool) []core.Ob {
 
 func init() {
 	Props["C01"] = PropDef{
-		Explanation: "R-NOBUF call-graph reachability; T-ENDIAN / T-DISPATCH (+ clause consistency) / T-KIND / T-NATURAL / T-TAGWIDTH table extraction from syntax and SSA; T-BITFIELD bit-range disjointness; R-RAWREAD one-byte adapter; R-NOALIAS append ownership; T-KIND emptiness coverage; R-ORDER exact-before-fold; R-SIBLING list element tag; R-LENPREFIX payload on every path; R-REFLKIND zero Value; R-REFLKIND set-exact-type; R-TRUNC length prefix; T-KIND array containers; R-MARSHALER wrapper and array tag. Decided: No read-ahead primitive is reachable from the decode entry points and the byte adapter delivers a byte only when one was read; fixed-width codecs are big-endian and move the width of their tag (clauses and width tables); tag dispatches are complete, self-consistent and reject unknown ids and bare TagEnd; the kind->tag mapping is the documented table, accepted back, and omitempty decides every encodable kind; the field-index cache does not alias and is keyed by exact names, which are asked before any case-insensitive match; every list element is written with the tag of the list header (or refused), an array payload is built on every path, no Type() of a possibly zero Value. Decoded values for arbitrary documents and struct-tag option parsing are not decided.",
+		Explanation: "R-NOBUF call-graph reachability; T-ENDIAN / T-DISPATCH (+ clause consistency) / T-KIND / T-NATURAL / T-TAGWIDTH table extraction from syntax and SSA; T-BITFIELD bit-range disjointness; R-RAWREAD one-byte adapter; R-NOALIAS append ownership; T-KIND emptiness coverage; R-ORDER exact-before-fold; R-SIBLING list element tag; R-LENPREFIX payload on every path; R-REFLKIND zero Value; R-REFLKIND set-exact-type; R-TRUNC length prefix; T-KIND array containers; R-MARSHALER wrapper and array tag; T-KIND map keys are tested before a reflected map is written. Decided: No read-ahead primitive is reachable from the decode entry points and the byte adapter delivers a byte only when one was read; fixed-width codecs are big-endian and move the width of their tag (clauses and width tables); tag dispatches are complete, self-consistent and reject unknown ids and bare TagEnd; the kind->tag mapping is the documented table, accepted back, and omitempty decides every encodable kind; the field-index cache does not alias and is keyed by exact names, which are asked before any case-insensitive match; every list element is written with the tag of the list header (or refused), an array payload is built on every path, no Type() of a possibly zero Value. Decoded values for arbitrary documents and struct-tag option parsing are not decided.",
 		Run: func(c *Ctx) []core.Ob {
 			obs := c.NoReadAhead()
 			obs = append(obs, c.Endian()...)
@@ -41,6 +41,7 @@ func init() {
 			obs = append(obs, c.LengthPrefixNarrowing("nbt", "nbt/dynbt")...)
 			obs = append(obs, c.SetExactType("nbt", "nbt.(*Decoder).unmarshal")...)
 			obs = append(obs, filterObs(c.RawRead(), func(o core.Ob) bool { return strings.HasPrefix(o.Key, "nbt.") || strings.HasPrefix(o.Key, "nbt/") })...)
+			obs = append(obs, c.MapKeyKindChecked("nbt")...)
 			return obs
 		},
 	}
